@@ -145,7 +145,7 @@ class RealRun:
 
         def hooked(connection):
             # instrumentation only: which connection the new release task is for; holder bookkeeping
-            cid = self.conn_ids.get(id(connection))
+            cid = self.cid_of(connection)
             self._releasing = cid
             self.holders.get(cid, set()).clear()
             return orig_nwr(connection)
@@ -211,6 +211,17 @@ class RealRun:
             self.conn_objs[cid] = wrapper
         return cid
 
+    def cid_of(self, wrapper):
+        """Name of a pooled object, also when the harness has not seen it granted yet."""
+        cid = self.conn_ids.get(id(wrapper))
+        if cid is None:
+            try:
+                key = int(wrapper._address[0][1:].split('.')[0])
+            except Exception:
+                key = 0
+            cid = self.conn_id(wrapper, key)
+        return cid
+
     def new_release_task(self, task):
         j = len(self.rel_tasks)
         self.rel_ids[task] = j
@@ -246,6 +257,7 @@ class RealRun:
                         if direct:
                             session._connections.discard(conn)
                             self._ungrant(i, cid)
+                            self.cstate[i] = 'releasing'
                             await compat._ensure(pool.release(conn))
                 except NetworkError:
                     pass
@@ -362,8 +374,8 @@ class RealRun:
         hosts = []
         for key, p in hp.items():
             k = self.key_index(key)
-            ready = sorted(self.conn_ids[id(c)][1] for c in p.ready)
-            busy = sorted(self.conn_ids[id(c)][1] for c in p.busy)
+            ready = sorted(self.cid_of(c)[1] for c in p.ready)
+            busy = sorted(self.cid_of(c)[1] for c in p.busy)
             cond = []
             for fut in p._condition._waiters:
                 owner = self.fut_owner(fut)
@@ -410,6 +422,9 @@ class RealRun:
     def final_oracle(self):
         """Called when nothing is ready any more."""
         pool = self.pool
+        for i, t in enumerate(self.tasks):
+            if t.done() and not t.cancelled() and t.exception() is not None:
+                self.oracle.append(('error', 'client-exception', 'client %d ended with %r' % (i, t.exception())))
         unfinished = [i for i, t in enumerate(self.tasks) if not t.done()]
         rel_unfinished = [j for j, t in enumerate(self.rel_tasks) if not t.done()]
         if unfinished or rel_unfinished:
@@ -536,9 +551,7 @@ def judge(ctx, case, out, model_reply, tags=()):
     full = dict(case)
     full['schedule'] = [bare(d) for d in out.log]
     full['resolved'] = out.log
-    waited = any(':-:' not in h.split(':', 3)[3][:0] + ':' + h.split(':')[3] + ':' for st in out.states
-                 for h in st.split('|')[0].split('=', 1)[1].split('/') if h not in ('-', 'KEYSETS-DIFFER')) if False else \
-        any(_has_waiter(st) for st in out.states)
+    waited = any(_has_waiter(st) for st in out.states)
     faults = [d for d in out.log if d[0] in 'xq']
     t = list(tags)
     t.append('waited' if waited else 'no-wait')
@@ -595,6 +608,14 @@ def run_batch(ctx, items, tags=()):
 
 # ---- lost wake-up oracle on the real objects (added to RealRun.check_oracle)
 def _lost_wakeup(self, where):
+    # only judged when no pool-internal activity is under way: every release task has run and no client
+    # inside acquire()/release() is ready to continue (a woken or cancelled waiter counts as activity)
+    if any(not t.done() for t in self.rel_tasks):
+        return
+    ready_names = set(self.ready()[1])
+    for i, st in enumerate(self.cstate):
+        if st in ('acquiring', 'releasing') and ('c%d' % i) in ready_names:
+            return
     for key, p in self.pool._host_pools.items():
         live = notified = 0
         for fut in p._condition._waiters:
@@ -640,10 +661,8 @@ def enumerate_all(ctx, case, max_cancels, max_leaves, tags):
             choices = list(opts)
             if used < max_cancels:
                 choices += [f for f in faults if f[0] == 'x' and not run.creq_pending(int(f[1:]))]
-            if not choices or not opts and used >= max_cancels:
-                return None
             if not opts:
-                return None
+                return None        # the loop is dry: a leaf
             record.append((i, choices))
             return choices[0]
         out = execute(case, chooser)
@@ -736,6 +755,9 @@ def run(ctx):
             ({'M': 1, 'max_count': 100, 'programs': [[(0, 0, 0), (1, 0, 0)], [(1, 0, 0), (0, 0, 0)]]}, 1),
             ({'M': 1, 'max_count': 0, 'programs': [[(0, 0, 0)], [(0, 0, 0)], [(1, 0, 1)]]}, 0),
             ({'M': 1, 'max_count': 100, 'programs': [[(0, 0, 0)], [(0, 0, 0)]]}, 2),
+            ({'M': 2, 'max_count': 100, 'programs': [[(0, 0, 0)], [(0, 0, 0)], [(0, 1, 0)], [(0, 0, 1)]]}, 0),
+            ({'M': 1, 'max_count': 100, 'programs': [[(0, 0, 0)], [(0, 1, 0)], [(0, 0, 1)]]}, 1),
+            ({'M': 1, 'max_count': 100, 'programs': [[(0, 1, 0), (0, 0, 0)], [(0, 0, 0)]]}, 2),
         ]
     total, all_complete = 0, True
     for case, ncancel in tiny:
